@@ -64,13 +64,23 @@ def obj_info(md, name):
     return {"tag": AnyObj.NAMES[tg], "truthy": truthy}
 
 
-def make_recipe(model, op, tdesc, rdesc, sdesc, expected, clause=None, exact=False):
+def make_recipe(model, op, tdesc, rdesc, sdesc, expected, clause=None, exact=False, iterated=None):
+    iterated = dict(iterated or {})
+
     def mk(md):
         descs = [tdesc, rdesc, sdesc]
         objs, nums, gm = {}, {}, {}
+
+        def with_items(n):
+            info = obj_info(md, n)
+            if n in iterated:
+                # the code iterated this container: its elements as the path chose them
+                info["items"] = [({"t": "num", "v": enc_model(md, d["name"])} if d["t"] == "num"
+                                  else dict(with_items(d["name"]), t="obj")) for d in iterated[n]]
+            return info
         for d in descs:
             for n in _obj_names(d, []):
-                objs[n] = obj_info(md, n)
+                objs[n] = with_items(n)
             for n in _num_names(d, []):
                 nums[n] = enc_model(md, n)
             for (i, j) in _own_names(d, []):
@@ -103,7 +113,7 @@ def check_path(ctx, model, op, S, m, tval, tdesc, rval, rdesc, sval, sdesc, rati
         expected = ag.spec_teams(tdesc)
     got = None if out[0] == "return" else type(out[1]).__name__
     fn = f"{model}.{op}"
-    meta = {"replay": make_recipe(model, op, tdesc, rdesc, sdesc, expected), "fn": fn, "shape": shape}
+    meta = {"replay": make_recipe(model, op, tdesc, rdesc, sdesc, expected, iterated=ctx.iterated), "fn": fn, "shape": shape}
     if out[0] == "raise" and type(out[1]) not in (TypeError, ValueError):
         ctx.oblige(f"C13/{model}/{op}/only-TypeError-or-ValueError@{shape}", False, meta=dict(meta, note=f"{got}: {out[1]}"))
         return
